@@ -40,6 +40,7 @@ YearV == [ absent |-> None,
            binmax |-> Some([type |-> BINARY, data |-> <<255, 255, 255, 255>>]),
            \* the binary form whose four bytes happen to be ASCII digits: still the big-endian number
            \* big-endian integer type (21): not one of the two forms of a year
+           binzero |-> Some([type |-> BINARY, data |-> <<0, 0, 0, 0>>]),     \* the year 0, present
            int0 |-> Some([type |-> <<21>>, data |-> <<>>]),
            int4 |-> Some([type |-> <<21>>, data |-> <<0, 0, 7, 216>>]),
            bindigits |-> Some([type |-> BINARY, data |-> <<50, 48, 48, 56>>]) ]
@@ -84,7 +85,9 @@ ShapeV == [ mdir |-> [present |-> "full", fullbox |-> TRUE, handler |-> MDIR],
             noudta |-> [present |-> "none", fullbox |-> TRUE, handler |-> MDIR] ]
 
 HdrV == [ small |-> {}, data |-> {"data"}, item |-> {"item"}, all |-> {"data", "item", "ilst", "meta", "udta"} ]
+\* with the look-alike items the handler also gets a name, in Latin-1 (not valid UTF-8): "(c) Tagger"
 TheMeta == [items |-> Items, large |-> HdrV[hdr]] @@ ShapeV[shape]
+           @@ (IF unk = "named" THEN [hname |-> <<169, 32, 84, 97, 103, 103, 101, 114>>] ELSE [x \in {} |-> 0])
 
 \* a movie-level meta box (ISO allows one in moov): another handler, or an 'mdir' one with OTHER tags.
 \* It is not the user data: the accessors keep answering from moov/udta/meta.
@@ -110,6 +113,7 @@ Logical ==
                      [] year = "textmax" \/ year = "binmax" -> Some(<<255, 255, 255, 255>>)
                      [] year = "text65536" -> Some(<<1, 0, 0>>)
                      [] year = "text007" -> Some(<<7>>)
+                     [] year = "binzero" -> Some(<<>>)
                      [] year = "bindigits" -> Some(<<50, 48, 48, 56>>)
                      [] OTHER -> None)
              ELSE None,
